@@ -22,6 +22,12 @@ func init() {
 			"NOT decided: 'succeeds exactly when the device reaches a shell prompt' as a statement over dialogues, segmentations and banner texts (regular-expression matching on run-time data).",
 		Assumptions: []string{"regexp matching is opaque; prompt patterns are the configured ones"},
 		Mutants: []Mutant{
+			{ID: "C10-passphrase-buffer-kept", Desc: "the ssh login loop keeps its buffer after typing the passphrase", Rule: "C10/auth-reset",
+				Edits: []Edit{{File: "channel/auth.go", Old: "\t\t\tb = []byte{}\n\t\t}\n\t}\n}\n\n// AuthenticateSSH", New: "\t\t\tnb = []byte{}\n\t\t}\n\t}\n}\n\n// AuthenticateSSH"}}},
+			{ID: "C10-login-deadline-on-worker-context", Desc: "the ssh login worker gets a context with the deadline itself", Rule: "C10/worker-nil-result",
+				Edits: []Edit{{File: "channel/auth.go", Old: "\tctx, cancel := context.WithCancel(context.Background())\n\n\tdefer cancel()\n\n\tgo func() {\n\t\tdefer close(cr)\n\n\t\tcr <- c.authenticateSSH(ctx, p, pp)", New: "\tctx, cancel := context.WithTimeout(context.Background(), c.TimeoutOps)\n\n\tdefer cancel()\n\n\tgo func() {\n\t\tdefer close(cr)\n\n\t\tcr <- c.authenticateSSH(ctx, p, pp)"}}},
+			{ID: "C10-empty-credential-not-sent", Desc: "WriteAndReturn returns early for an empty credential", Rule: "C10/found-send-input",
+				Edits: []Edit{{File: "channel/write.go", Old: "func (c *Channel) WriteAndReturn(b []byte, r bool) error {\n", New: "func (c *Channel) WriteAndReturn(b []byte, r bool) error {\n\tif len(b) == 0 {\n\t\treturn nil\n\t}\n\n"}}},
 			{ID: "C10-scan-fresh-only", Desc: "ssh client messages looked for in the latest read only", Rule: "C10/scan-accumulated",
 				Edits: []Edit{{File: "channel/auth.go", Old: "err = c.sshMessageHandler(b)", New: "err = c.sshMessageHandler(nb)"}}},
 			{ID: "C10-passphrase-defaults-to-password", Desc: "in-channel auth data: an empty key passphrase falls back to the account password", Rule: "C10/auth-data-wiring",
@@ -117,6 +123,7 @@ func runC10(c *Ctx, r *Report) {
 	importFoundation(c, r, "C10", "transport-pipe")
 	importFoundation(c, r, "C10", "read-loop")
 	importFoundation(c, r, "C10", "queue")
+	importFoundation(c, r, "C10", "send-input")
 	r.Rule("C10/ansi-bounded", "what the read loop strips cannot span the login prompt: no unbounded repetition of the escape-sequence pattern admits ESC or newline", 1)
 	checkANSIPatternBounded(c, r, "C10/ansi-bounded")
 	r.Rule("C10/auth-data-wiring", "InChannelAuthData fills user, password and passphrase each from its own setting", 1)
@@ -133,6 +140,10 @@ func runC10(c *Ctx, r *Report) {
 
 	r.Rule("C10/scan-accumulated", "prompt patterns and the ssh client message scan are applied to everything read since the last answer, never to the latest read alone", 7)
 	checkAuthScanAccumulated(c, r)
+	r.Rule("C10/auth-reset", "after each credential the login loop starts from an empty buffer (the answered prompt cannot match again on the next chunk)", 4)
+	checkAuthBufferReset(c, r, "C10/auth-reset")
+	r.Rule("C10/worker-nil-result", "a login worker that can answer nil (when told to stop) is only told to stop by the deferred cancel of the function that reads its answer", 2)
+	checkWorkerNilResult(c, r, "C10/worker-nil-result")
 	war := c.LookupFunc("channel", "Channel", "WriteAndReturn")
 	if war == nil {
 		r.Anchor("C10/credential-prompt", "(*channel.Channel).WriteAndReturn")
